@@ -2,6 +2,7 @@ package main
 
 import (
 	"fmt"
+	"go/constant"
 	"go/token"
 	"go/types"
 	"regexp"
@@ -730,6 +731,17 @@ func (e *Exec) enter(st *State, to *ssa.BasicBlock) bool {
 	if li == nil {
 		return true
 	}
+	if n, ok := constTripCount(li); ok && len(e.loopClauses(fr, li)) == 0 {
+		// a loop over a fixed-size array (at most 8 elements) that carries no
+		// invariant is simply executed: the index is concrete on every pass
+		if fr.unrolled == nil {
+			fr.unrolled = map[int]int{}
+		}
+		fr.unrolled[to.Index]++
+		if fr.unrolled[to.Index] <= n+2 {
+			return true
+		}
+	}
 	if li.body[from] { // back edge
 		if d := e.disc; d != nil && d.head == to.Index && d.depth == len(st.frames) && d.loop.head.Parent() == fr.fn {
 			e.recordDiscovery(st)
@@ -764,6 +776,33 @@ type loopMod struct {
 	objs    map[string][]string
 	unknown map[string]bool
 	deep    []string
+}
+
+// constTripCount recognises `for i := range [N]T{...}` (and `for i := 0; i < N; i++`
+// with a literal N): the head compares the index against a constant at most 8.
+func constTripCount(li *loopInfo) (int, bool) {
+	for _, in := range li.head.Instrs {
+		b, ok := in.(*ssa.BinOp)
+		if !ok || b.Op != token.LSS {
+			continue
+		}
+		c, ok := b.Y.(*ssa.Const)
+		if !ok || c.Value == nil {
+			continue
+		}
+		n, ok := constant.Int64Val(c.Value)
+		if !ok || n < 0 || n > 8 {
+			continue
+		}
+		x := b.X
+		if a, ok := x.(*ssa.BinOp); ok && a.Op == token.ADD {
+			x = a.X
+		}
+		if ph, ok := x.(*ssa.Phi); ok && ph.Block() == li.head {
+			return int(n), true
+		}
+	}
+	return 0, false
 }
 
 func (e *Exec) iterOfLoop(fr *Frame, li *loopInfo) *ssa.Range {
@@ -1176,7 +1215,7 @@ func (e *Exec) specErr(err error) {
 // specEnvFor builds a spec environment for frame fr: parameters by name, named
 // locals through debug references.
 func (e *Exec) specEnvFor(st *State, fr *Frame) *SpecEnv {
-	env := &SpecEnv{e: e, st: st, vars: map[string]Value{}, pkg: fr.fn.Pkg.Pkg, trace: st.trace, what: fnKey(fr.fn)}
+	env := &SpecEnv{e: e, st: st, vars: map[string]Value{}, pkg: e.pkgOfFrame(fr), trace: st.trace, what: fnKey(fr.fn)}
 	for name, v := range fr.names {
 		if strings.HasPrefix(name, "&") {
 			addr := e.val(fr, v)
